@@ -226,6 +226,7 @@ def _stmt(tag, inheritable, in_eclass):
         var.flatmap(lambda v: _tokens_for(v, tag).filter(bool).map(lambda t: ["add", v, t])),
         var.flatmap(lambda v: _tokens_for(v, tag).filter(bool).map(lambda t: ["add", v, t])),
         var.map(lambda v: ["unset", v]),
+        accum.map(lambda v: ["set", v, []]),          # VAR="" : set but empty (differs from unset for RDEPEND, EAPI 0-3)
         st.builds(lambda d, s, a: ["copy", d, s, a], st.sampled_from(DEP_VARS), st.sampled_from(DEP_VARS), st.booleans()),
         st.sampled_from(ALL_PHASE_FUNCS).map(lambda p: ["phase", p]),
     ]
